@@ -42,8 +42,12 @@ PathTo(n) == IF n = "root" THEN <<"root">> ELSE Append(PathTo(Parent(n)), n)    
 \* node extensions carry an always-true detector and are the first child: a walk that reaches
 \* an extended node ends on its extension
 ExtOf(n) == "ext-" \o n
+\* a chain of ChainLen nested always-true extensions below n (registered one under the other)
+ChainLen == 12
+ChainOf(n) == [i \in 1..ChainLen |-> "chain-" \o n \o "-" \o ToString(i)]
 RECURSIVE Walk(_, _, _)
-Walk(path, i, ext) == IF path[i] \in ext THEN SubSeq(path, 1, i) \o <<ExtOf(path[i])>>
+Walk(path, i, ext) == IF ("chain:" \o path[i]) \in ext THEN SubSeq(path, 1, i) \o ChainOf(path[i])
+                      ELSE IF path[i] \in ext THEN SubSeq(path, 1, i) \o <<ExtOf(path[i])>>
                       ELSE IF i = Len(path) THEN path ELSE Walk(path, i + 1, ext)
 ResultPath(cls, ext) == Walk(PathTo(cls), 1, ext)                               \* root first
 Rev(s) == [i \in 1..Len(s) |-> s[Len(s) + 1 - i]]
@@ -60,24 +64,30 @@ Detect(c) == /\ hist' = Append(hist, [op |-> "detect", cls |-> c, chain |-> Expe
 ExtCopy(c) == /\ hist' = Append(hist, [op |-> "extcopy", cls |-> c, chain |-> <<>>, params |-> FALSE])
               /\ UNCHANGED ext
 \* Extend called on the tree node n
-ExtNode(n) == /\ n \notin ext
+ExtNode(n) == /\ n \notin ext /\ ("chain:" \o n) \notin ext
               /\ hist' = Append(hist, [op |-> "extnode", cls |-> n, chain |-> <<>>, params |-> FALSE])
               /\ ext' = ext \cup {n}
+ExtChain(n) == /\ ("chain:" \o n) \notin ext /\ n \notin ext       \* one kind of extension per node (their order would matter)
+               /\ hist' = Append(hist, [op |-> "extchain", cls |-> n, chain |-> <<>>, params |-> FALSE])
+               /\ ext' = ext \cup {"chain:" \o n}
+ChainNodes == {"root", "json"}
 CopyClasses == {"html", "xml", "txt", "json", "har", "aaf"}
 ExtNodes == {"root", "json", "html", "ole"}
 Next == /\ Len(hist) < MaxLen
         /\ \/ \E c \in Classes : Detect(c)
            \/ \E c \in CopyClasses : ExtCopy(c)
            \/ \E n \in ExtNodes : ExtNode(n)
+           \/ \E n \in ChainNodes : ExtChain(n)
 Spec == Init /\ [][Next]_vars
 
 \* C02 on the model: every chain is finite, ends at the root's name, and only the result itself
 \* (never an ancestor) stands on a charset-bearing node... ancestors may BE text/plain but carry no parameters
 ChainsRooted == \A i \in 1..Len(hist) : hist[i].op = "detect" =>
-                   /\ Len(hist[i].chain) \in 1..6
+                   /\ Len(hist[i].chain) \in 1..(6 + ChainLen)
                    /\ hist[i].chain[Len(hist[i].chain)] = "application/octet-stream"
 \* the result of a detection does not depend on earlier detections or on extensions of copies
 HistoryFree == \A i \in 1..Len(hist) : hist[i].op = "detect" =>
-                   hist[i].chain = ExpectedChain(hist[i].cls, {hist[j].cls : j \in {k \in 1..(i - 1) : hist[k].op = "extnode"}})
+                   hist[i].chain = ExpectedChain(hist[i].cls, {hist[j].cls : j \in {k \in 1..(i - 1) : hist[k].op = "extnode"}}
+                                                    \cup {"chain:" \o hist[j].cls : j \in {k \in 1..(i - 1) : hist[k].op = "extchain"}})
 Dump == Len(hist) = MaxLen => PrintT(ToJson(hist))
 =============================================================================
